@@ -976,6 +976,11 @@ fn subruns(prop: &str, tier: Tier) -> u64 {
 
 const REF_STEP_CAP: u64 = 600_000;
 
+/// C04 only: scenario indices that run concurrent callers on one shared `Preferences`.
+pub fn is_multicaller_scenario(prop: &str, idx: u64) -> bool {
+    prop == "C04" && idx % 8 == 3 && std::env::var("VERIF_SPEC").is_err()
+}
+
 /// C05 only: scenario indices that abort `classgroup::classgroup` instead of `factor`.
 pub fn is_classgroup_abort_scenario(prop: &str, idx: u64) -> bool {
     prop == "C05" && idx % 8 == 5
@@ -1027,6 +1032,10 @@ impl Family for FactorFamily {
         if is_classgroup_abort_scenario(prop, idx) {
             // C05 is anchored in classgroup.rs too: one scenario in eight aborts classgroup()
             return crate::scen::clsabort::run_c05(tier, seed, idx);
+        }
+        if is_multicaller_scenario(prop, idx) {
+            // C04: one scenario in eight runs several concurrent callers on one shared Preferences
+            return crate::scen::multicaller::run_c04(tier, seed, idx);
         }
         let mut rep = Report::new(idx);
         let mut rng = Rng::new(derive(seed, prop, idx, "scenario"));
@@ -1360,6 +1369,9 @@ impl Family for FactorFamily {
     fn describe(&self, prop: &str, tier: Tier, seed: u64, idx: u64) -> Value {
         if is_classgroup_abort_scenario(prop, idx) {
             return crate::scen::clsabort::ClsAbortFamily.describe(prop, tier, seed, idx);
+        }
+        if is_multicaller_scenario(prop, idx) {
+            return crate::scen::multicaller::MultiCallerFamily.describe(prop, tier, seed, idx);
         }
         let mut rng = Rng::new(derive(seed, prop, idx, "scenario"));
         gen_spec(&mut rng, prop, tier).to_json()
